@@ -68,7 +68,7 @@ class Monitor:
         for msg, loc in s.new_ubsan():
             c = ubsan_class(msg)
             if c: s.part.violation(f"{req['fn']}|{cls}|ubsan:{c}@{loc}", 'UBSan: ' + msg[:160], {'request': clip(req), 'location': loc})
-            else: s.part.observe('ubsan-observation ' + loc, re.sub(r'0x[0-9a-f]+', '0x..', msg)[:140])
+            elif not loc.startswith('/verif/exec'): s.part.observe('ubsan-observation ' + loc, re.sub(r'0x[0-9a-f]+', '0x..', msg)[:140])
         return r
 
 def clip(o, n=160):
@@ -179,32 +179,32 @@ def epilogue(mon, env, st):
         c('C_CloseAllSessions', slot=slot)
     c('C_Finalize')
 
-def canonical_death(env, e, fn, tags, prefix, base, edits):
+def canonical_death(env, e, fn, tags, prefix, base, edits, untagged='well-formed'):
     """canonical key `<entry point>|<input class>|<death kind>@<first library frame>`; with several hostile edits the
     input class is found by ablation: the request prefix is replayed in a fresh process on a fresh clone and the base
     request is sent with ONE edit at a time; the first edit that reproduces the same death names the class."""
     sig = death_sig(e)
-    if len(edits) > 1:
-        for tag, field, val in sorted(edits, key=lambda t: t[0]):
+    if edits:   # first the base request WITHOUT any edit (the cause may be an earlier call), then one edit at a time
+        for tag, field, val in [(None, None, None)] + (sorted(edits, key=lambda t: t[0]) if len(edits) > 1 else []):
             d = os.path.join(env['scratch'], 'abl-%d-%d' % (os.getpid(), random.getrandbits(40))); x = None
             try:
                 x = new_exec(env, d, conf=clone_golden(env, d))
                 for q in prefix: x.raw(q)
-                x.raw(FG.Gen.apply(base, [(tag, field, val)]))
+                x.raw(FG.Gen.apply(base, [(tag, field, val)] if tag else []))
             except Died as e2:
-                if death_sig(e2) == sig: tags = [tag]; break
+                if death_sig(e2) == sig: tags = [tag] if tag else []; break
             except Hang: pass
             finally:
                 if x: x.kill()
                 shutil.rmtree(d, ignore_errors=True)
-    cls = '+'.join(tags) if tags else 'well-formed'
+    cls = '+'.join(tags) if tags else untagged
     return f'{fn}|{cls}|{sig}', sig
 
 def run_sequence(env, seed, part, keep=None):
     """one hostile sequence in its own executor on its own clone of the golden directory"""
     rnd = random.Random(seed); d = os.path.join(env['scratch'], 's%d' % seed); shutil.rmtree(d, ignore_errors=True)
     x = new_exec(env, d, conf=clone_golden(env, d)); mon = Monitor(x, env['ck'], part); cur = ('setup', [], None, [])
-    ncalls = 0; hostile = 0; tagset = set(); depth = {}
+    ncalls = 0; hostile = 0; tagset = set(); depth = {}; hobjs = set(); opkey = {}
     try:
         st = deep_state(mon, env, rnd)
         gen = FG.Gen(rnd, env['ck'], st, K)
@@ -212,6 +212,8 @@ def run_sequence(env, seed, part, keep=None):
             req, tags, base, edits = gen.next(); cur = (req['fn'], tags, base, edits); prefix_len = len(mon.reqs)
             r = mon.call(req, '+'.join(tags) if tags else ('well-formed-after-hostile' if hostile else 'well-formed'))
             gen.observe(req, r); ncalls += 1; hostile += bool(tags)
+            if tags and r['rv'] == 0: hobjs.update(h for h in (r.get('h'), r.get('hpub'), r.get('hpriv')) if h)
+            if r['rv'] == 0 and req['fn'] in FG.INIT_OP and 'key' in req: opkey[req.get('s')] = req['key']
             for t in tags: tagset.add((req['fn'], t))
             part.count('rv:' + r['rvname'])
             if r['rv'] == 0 and req['fn'] in FG.INIT_OP: depth[FG.INIT_OP[req['fn']]] = 1
@@ -220,7 +222,9 @@ def run_sequence(env, seed, part, keep=None):
     except Died as e:
         fn = e.fn or cur[0]
         if cur[0] in ('setup', 'epilogue'): key, sig = f"{fn}|{'well-formed' if cur[0] == 'setup' else 'well-formed-after-hostile'}|{death_sig(e)}", None
-        else: key, sig = canonical_death(env, e, fn, cur[1], mon.reqs[:-1], cur[2], cur[3])
+        else:
+            q = mon.reqs[-1]; uses = {q.get(f) for f in ('o', 'key', 'wkey', 'ukey')} | {opkey.get(q.get('s'))}
+            key, sig = canonical_death(env, e, fn, cur[1], mon.reqs[:-1], cur[2], cur[3], 'use-of-hostile-object' if (uses & hobjs) else ('well-formed-after-hostile' if hostile else 'well-formed'))
         part.violation(key, f'the library terminated the host process inside {fn} ({e.kind()})',
                        {'mode': 'api', 'seed': seed, 'cfg': env['cfg'], 'backend': env['backend'], 'ncalls': env['ncalls'], 'dying_request': clip(mon.reqs[-1] if mon.reqs else None),
                         'tags': cur[1], 'note': e.note, 'stderr_tail': (e.stderr_tail or '')[-2500:], 'trace_tail': [clip(q, 80) for q in mon.reqs[-8:]]})
@@ -250,14 +254,14 @@ def rerun_hangs(env, seed):
 # struct with field-wise hostile values" or "mismatched key types for every *Init" does not depend on random luck.  A cell is
 # (tag, detail, function(E)); cells of one family are regenerated inside each worker (closures are not picklable) and sharded.
 class CellEnv:
-    def __init__(s, mon, env, st, tag): s.mon = mon; s.env = env; s.ck = env['ck']; s.st = st; s.tag = tag; s.x = mon.x; s.S = 0; s.haes = 0
-    def c(s, fn, **kw): return s.mon.call(dict(fn=fn, **kw), s.tag)
-    def k(s, kind, ti=0):
-        for o in s.st.objs:
+    def __init__(self, mon, env, st, tag): self.mon = mon; self.env = env; self.ck = env['ck']; self.st = st; self.tag = tag; self.x = mon.x; self.S = 0; self.haes = 0
+    def c(self, fn, **kw): return self.mon.call(dict(fn=fn, **kw), self.tag)
+    def k(self, kind, ti=0):
+        for o in self.st.objs:
             if o.kind == kind and o.ti == ti and o.token: return o.h
         return 0
-    def T(s, pairs): return s.x.T(K.resolve(s.ck, list(pairs)))
-    def M(s, name, p=None): return {'m': s.ck[name], 'p': p}
+    def T(self, pairs): return self.x.T(K.resolve(self.ck, list(pairs)))
+    def M(self, name, p=None): return {'m': self.ck[name], 'p': p}
 
 KEY_MATERIAL = ['CKA_VALUE', 'CKA_MODULUS', 'CKA_PUBLIC_EXPONENT', 'CKA_PRIVATE_EXPONENT', 'CKA_PRIME_1', 'CKA_PRIME_2', 'CKA_EXPONENT_1', 'CKA_EXPONENT_2', 'CKA_COEFFICIENT',
                 'CKA_PRIME', 'CKA_SUBPRIME', 'CKA_BASE', 'CKA_EC_PARAMS', 'CKA_EC_POINT']
@@ -308,7 +312,7 @@ def grid_cells(family, ck, seed, scale):
                         nv = {'empty': b'', 'zero': bytes(len(v)), 'truncated': v[:len(v) // 2], 'extended': v + b'\x01', 'ones': b'\xff' * len(v), 'one-byte': b'\x00'}.get(op)
                         t = [(a, (nv if a == attr else b)) for a, b in base if not (op == 'missing' and a == attr)]
                         r = E.c('C_CreateObject', s=E.S, tmpl=E.T(t))
-                        if r['rv'] == 0: use_key(E.c, E.ck, E.S, r['h'], use_class(kind), E.haes); E.c('C_GetAttributeValue', s=E.S, o=r['h'], tmpl=[{'t': E.ck[a], 'buf': 4096} for a in ('CKA_CHECK_VALUE', 'CKA_VALUE_LEN', 'CKA_MODULUS_BITS', 'CKA_PUBLIC_KEY_INFO')])
+                        if r['rv'] == 0: E.tag = 'use-of-hostile-object'; use_key(E.c, E.ck, E.S, r['h'], use_class(kind), E.haes); E.c('C_GetAttributeValue', s=E.S, o=r['h'], tmpl=[{'t': E.ck[a], 'buf': 4096} for a in ('CKA_CHECK_VALUE', 'CKA_VALUE_LEN', 'CKA_MODULUS_BITS', 'CKA_PUBLIC_KEY_INFO')])
                     add('use-of-hostile-object', f'{kind} {attr}={op}', f)
     elif family == 'unwrap':
         mechs = [('CKM_AES_KEY_WRAP', None, 'aes128'), ('CKM_AES_KEY_WRAP_PAD', None, 'aes128'), ('CKM_AES_CBC_PAD', {'hex': '00' * 16}, 'aes128'), ('CKM_AES_CBC', {'hex': '00' * 16}, 'aes128'), ('CKM_DES3_CBC_PAD', {'hex': '00' * 8}, 'des3'),
@@ -323,7 +327,7 @@ def grid_cells(family, ck, seed, scale):
             for tk in ('aes128', 'generic64', 'rsa1024:priv', 'ec_p256:priv', 'dsa1024:priv', 'dh1024:priv', 'ed25519:priv', 'ec_p521:priv'):
                 for mut in ('minus1', 'minus8', 'half', 'plus1', 'plus8', 'flip-first', 'flip-last', 'flip-mid', 'intact'):
                     def f(E, m=m, p=p, ukind=ukind, tk=tk, mut=mut):
-                        wk = E.k(ukind.replace(':priv', ':pub')); r = E.c('C_WrapKey', s=E.S, mech=E.M(m, p), wkey=wk, key=E.k(tk), buf=8192)
+                        tag0 = E.tag; wk = E.k(ukind.replace(':priv', ':pub')); r = E.c('C_WrapKey', s=E.S, mech=E.M(m, p), wkey=wk, key=E.k(tk), buf=8192)
                         if r['rv'] != 0: return
                         w = bytearray.fromhex(r['out']['data']); n = len(w)
                         if mut == 'minus1': w = w[:-1]
@@ -336,7 +340,7 @@ def grid_cells(family, ck, seed, scale):
                         elif mut == 'flip-mid' and n: w[n // 2] ^= 0x10
                         for name, t in UNWRAP_TARGETS:
                             r2 = E.c('C_UnwrapKey', s=E.S, mech=E.M(m, p), ukey=E.k(ukind), wrapped=bytes(w).hex(), tmpl=E.T(t))
-                            if r2['rv'] == 0: use_key(E.c, E.ck, E.S, r2['h'], name, E.haes)
+                            if r2['rv'] == 0: E.tag = 'use-of-hostile-object'; use_key(E.c, E.ck, E.S, r2['h'], name, E.haes); E.tag = tag0
                     add('len:wrapped=' + ('intact-other-type' if mut == 'intact' else 'mutated-valid'), f'{m} {tk} {mut}', f)
     elif family == 'mechparam':
         for m, (pk, ops, ks) in FG.MECHS.items():
@@ -422,7 +426,7 @@ def grid_cells(family, ck, seed, scale):
                 lab, t = H.hostile_template(H_T(ck, K.template(kind)))
                 def f(E, kind=kind, t=t):
                     r = E.c('C_CreateObject', s=E.S, tmpl=t)
-                    if r['rv'] == 0 and r.get('h'): use_key(E.c, E.ck, E.S, r['h'], use_class(kind), E.haes); E.c('C_GetAttributeValue', s=E.S, o=r['h'], tmpl=[{'t': E.ck[a], 'buf': 4096} for a in PROBE_ATTRS[:40]]); E.c('C_CopyObject', s=E.S, o=r['h'], tmpl=[])
+                    if r['rv'] == 0 and r.get('h'): E.tag = 'use-of-hostile-object'; use_key(E.c, E.ck, E.S, r['h'], use_class(kind), E.haes); E.c('C_GetAttributeValue', s=E.S, o=r['h'], tmpl=[{'t': E.ck[a], 'buf': 4096} for a in PROBE_ATTRS[:40]]); E.c('C_CopyObject', s=E.S, o=r['h'], tmpl=[])
                 add('tmpl=' + lab, 'C_CreateObject ' + kind, f)
             for _ in range(draws(8)):
                 lab, t = H.hostile_template(H_T(ck, [('CKA_LABEL', b'x'), ('CKA_ID', b'y'), ('CKA_ENCRYPT', True), ('CKA_EXTRACTABLE', False)][:rnd.randrange(1, 5)]))
@@ -449,7 +453,7 @@ def grid_cells(family, ck, seed, scale):
                         a = t if which == 'pub' else E.T([('CKA_TOKEN', False)] + pub); b = t if which == 'priv' else E.T([('CKA_TOKEN', False)])
                         r = E.c('C_GenerateKeyPair', s=E.S, mech=E.M(m), pub=a, priv=b)
                         if r['rv'] == 0:
-                            fam = {'CKM_RSA_PKCS_KEY_PAIR_GEN': 'rsa', 'CKM_EC_KEY_PAIR_GEN': 'ec', 'CKM_EC_EDWARDS_KEY_PAIR_GEN': 'ed', 'CKM_DSA_KEY_PAIR_GEN': 'dsa', 'CKM_DH_PKCS_KEY_PAIR_GEN': 'dh'}[m]
+                            E.tag = 'use-of-hostile-object'; fam = {'CKM_RSA_PKCS_KEY_PAIR_GEN': 'rsa', 'CKM_EC_KEY_PAIR_GEN': 'ec', 'CKM_EC_EDWARDS_KEY_PAIR_GEN': 'ed', 'CKM_DSA_KEY_PAIR_GEN': 'dsa', 'CKM_DH_PKCS_KEY_PAIR_GEN': 'dh'}[m]
                             use_key(E.c, E.ck, E.S, r['hpriv'], fam + '-priv', E.haes); use_key(E.c, E.ck, E.S, r['hpub'], fam + '-pub', E.haes)
                     add('tmpl=' + lab, f'C_GenerateKeyPair {m} {which}', f)
     elif family == 'misc':
@@ -516,13 +520,13 @@ BATCH = {'damaged-key': 12, 'unwrap': 40, 'mechparam': 30, 'keytype': 40, 'datal
 
 def run_cells(env, family, cells, part, solo=False):
     """cells of one batch share an executor (a fresh session each); a death is re-run alone in a fresh executor to attribute it"""
-    rnd = random.Random(1); d = os.path.join(env['scratch'], 'g%d' % random.getrandbits(48)); i = 0; died_keys = []
+    rnd = random.Random(1); d = os.path.join(env['scratch'], 'g%d' % random.getrandbits(48)); i = 0; cur = None
     while i < len(cells):
         shutil.rmtree(d, ignore_errors=True); x = new_exec(env, d, conf=clone_golden(env, d)); mon = Monitor(x, env['ck'], part); tag, detail = 'setup', ''
         try:
             st = deep_state(mon, env, rnd, light=True)
             while i < len(cells):
-                tag, detail, f = cells[i]; E = CellEnv(mon, env, st, tag)
+                tag, detail, f = cells[i]; E = CellEnv(mon, env, st, tag); cur = E
                 r = mon.call(dict(fn='C_OpenSession', slot=st.slots[0], flags=6), 'setup'); E.S = r.get('h', 0)
                 r = mon.call(dict(fn='C_CreateObject', s=E.S, tmpl=x.T(K.resolve(env['ck'], K.template('aes128', label='cell-aes')))), 'setup'); E.haes = r.get('h', 0)
                 n0 = len(mon.reqs); f(E); mon.call(dict(fn='C_CloseSession', s=E.S), 'setup')
@@ -531,21 +535,20 @@ def run_cells(env, family, cells, part, solo=False):
         except Died as e:
             sig = death_sig(e); fn = e.fn; x.kill()
             if tag == 'setup': part.violation(f'{fn}|well-formed|{sig}', f'the library terminated the host process inside {fn} during the well-formed prologue', {'mode': 'grid', 'family': family, 'stderr_tail': (e.stderr_tail or '')[-2500:]}); i += 1; continue
-            cls = tag
-            if not solo:   # confirm alone
-                p2 = Part(); keys = run_cells(env, family, [cells[i]], p2, solo=True)
-                if not any(k == (fn, sig) for k in keys): cls = 'sequence-dependent:' + tag
-            died_keys.append((fn, sig))
-            if not solo or True:
-                part.violation(f'{fn}|{cls}|{sig}', f'the library terminated the host process inside {fn} ({e.kind()})',
-                               {'mode': 'grid', 'family': family, 'cell': detail, 'tag': tag, 'seed': env['seed'], 'cfg': env['cfg'], 'backend': env['backend'], 'dying_request': clip(mon.reqs[-1]), 'note': e.note,
-                                'stderr_tail': (e.stderr_tail or '')[-2500:], 'trace_tail': [clip(q, 80) for q in mon.reqs[-6:]]}) if not solo else None
+            tag = cur.tag; wit = {'mode': 'grid', 'family': family, 'cell': detail, 'tag': tag, 'seed': env['seed'], 'cfg': env['cfg'], 'backend': env['backend'], 'dying_request': clip(mon.reqs[-1]), 'note': e.note,
+                   'stderr_tail': (e.stderr_tail or '')[-2500:], 'trace_tail': [clip(q, 80) for q in mon.reqs[-6:]]}
+            if solo: return [(fn, sig, wit)]
+            # the canonical key comes from re-running the cell ALONE in a fresh executor (deterministic heap, no residue of earlier cells)
+            alone = run_cells(env, family, [cells[i]], Part(), solo=True)
+            if alone: fn, sig, wit = alone[0]; cls = tag
+            else: cls = 'sequence-dependent:' + tag
+            part.violation(f'{fn}|{cls}|{sig}', f'the library terminated the host process inside {fn} ({sig.split("@")[0]})', wit)
             part.count('deaths'); part.case((family, tag, detail.split(' ')[0])); part.count('grid_cells'); i += 1
         except Hang:
             x.kill(); part.count('hangs'); part.violation(f'{(mon.reqs[-1] or {}).get("fn")}|{tag}|hang', 'a call did not return within %d s' % TIMEOUT, {'mode': 'grid', 'family': family, 'cell': detail, 'request': clip(mon.reqs[-1])}); i += 1
         finally: x.kill()
     shutil.rmtree(d, ignore_errors=True)
-    return died_keys
+    return []
 
 # ------------------------------------------------------------------------------------------------ (b) file fuzz
 PROBE_ATTRS = FG.BOOL_ATTRS + FG.ULONG_ATTRS + FG.BYTES_ATTRS + FG.MECHLIST_ATTRS
